@@ -637,6 +637,25 @@ func drive(o hx.RunOpts) error {
 		return err
 	}
 
+	// directed infs case: an update of one entry followed by an add/remove of another entry in the same transaction
+	if b, err := newInfs(ctx); err != nil {
+		return fmt.Errorf("infs backend: %w", err)
+	} else if err := runCase(b, "infs corpus", func(r *runner) {
+		r.add(2, []val{{'s', 277688, 403}, {'s', 905, 404}})
+		r.dump(2)
+		r.upsert(2, []val{{'s', 719, 405}})
+		r.dump(2)
+		r.add(1, []val{{'s', 4, 406}, {'s', 793, 407}, {'s', 24, 408}})
+		r.dump(1)
+		r.update(2, []val{{'s', 490, 409}})
+		r.dump(2)
+		r.remove(1)
+		r.dump(1)
+		r.get(2)
+	}); err != nil {
+		return fmt.Errorf("infs commit: %w", err)
+	}
+
 	n := o.N(350, 2000)
 	for i := 0; i < n; i++ {
 		q := p.Fork()
